@@ -2,41 +2,45 @@
 a pred.py fact to a polarity for the abstract predicate, or None."""
 
 
-def empty_fact(fact, x):
-    """EMPTY(x): str::is_empty(x), len(x) == 0."""
+def _emptiness(fact, x, is_empty_names, len_names):
+    """Polarity of "x is empty" established by the fact: is_empty(x), or any comparison
+    whose normal form is len(x) <= 0 (== 0, < 1) / len(x) >= 1 (> 0, != 0)."""
+    from .poly import fact_nf, poly, GE0, Poly
     atom, pol = fact
-    if atom[0] == "b" and atom[1][0] == "call" and atom[1][1] in ("str::is_empty", "String::is_empty") and atom[1][2][0] == x:
+    if atom[0] == "b" and atom[1][0] == "call" and atom[1][1] in is_empty_names and atom[1][2][0] == x:
         return pol
-    if atom[0] == "cmp" and atom[1] == "Eq":
-        for a, b in ((atom[2], atom[3]), (atom[3], atom[2])):
-            if a == ("int", 0) and b[0] == "call" and b[1] in ("str::len", "String::len") and b[2][0] == x:
-                return pol
+    if atom[0] == "cmp":
+        nf = fact_nf(fact)
+        for ln in len_names:
+            L = poly(("call", ln, (x,)))
+            if nf == GE0(-L):
+                return True
+            if nf == GE0(L - Poly.const(1)):
+                return False
     return None
+
+
+def empty_fact(fact, x):
+    """EMPTY(x): str::is_empty(x), len(x) == 0 / < 1 / <= 0 (and their negations)."""
+    return _emptiness(fact, x, ("str::is_empty", "String::is_empty"), ("str::len", "String::len"))
 
 
 def vec_empty_fact(fact, v):
-    """ACC-EMPTY(v): Vec::is_empty(v), len(v) == 0."""
-    atom, pol = fact
-    if atom[0] == "b" and atom[1][0] == "call" and atom[1][1] in ("Vec::is_empty", "[]::is_empty") and atom[1][2][0] == v:
-        return pol
-    if atom[0] == "cmp" and atom[1] == "Eq":
-        for a, b in ((atom[2], atom[3]), (atom[3], atom[2])):
-            if a == ("int", 0) and b[0] == "call" and b[1] in ("Vec::len", "[]::len") and b[2][0] == v:
-                return pol
-    return None
+    """ACC-EMPTY(v): Vec::is_empty(v), len(v) == 0 / < 1 (and their negations)."""
+    return _emptiness(fact, v, ("Vec::is_empty", "[]::is_empty"), ("Vec::len", "[]::len"))
 
 
 def blank_fact(prog, body, fact, x):
     """BLANK(x): x consists of whitespace only.
     trim*().is_empty(); chars().all(char::is_whitespace); !chars().any(|c| !c.is_whitespace())."""
     atom, pol = fact
+    for tr in ("str::trim", "str::trim_start", "str::trim_end"):
+        e = empty_fact(fact, ("call", tr, (x,)))
+        if e is not None:
+            return e
     if atom[0] != "b":
         return None
     t = atom[1]
-    if t[0] == "call" and t[1] == "str::is_empty":
-        y = t[2][0]
-        if y[0] == "call" and y[1] in ("str::trim", "str::trim_start", "str::trim_end") and y[2][0] == x:
-            return pol
     if t[0] == "callm" and t[1] in ("Iterator::all", "Iterator::any") and len(t[2]) == 2:
         it, f = t[2]
         src = _iter_src(prog, body, it, t[3][1])
